@@ -22,6 +22,12 @@ macro_rules! int_case {
         if back != n { err = Some("primitive -> Pod -> primitive is not the identity".into()); }
         if json != serde_json::to_string(&n).unwrap() { err = Some("serde encoding differs from the primitive's".into()); }
         if serde_json::from_str::<$P>(&json).ok() != Some(pod) { notes.push("serde decoder does not read back what the encoder wrote"); }
+        // Serde is a data model, not a format: in a fixed-width binary format the width the type announces shows, in JSON it does not
+        match (guarded(|| bincode::serialize(&pod).ok()), bincode::serialize(&n).ok()) {
+            (Some(a), b) => { if a != b { err = Some("serde encoding in a fixed-width binary format differs from the primitive's".into()); }
+                              if let Some(a) = &a { if bincode::deserialize::<$P>(a).ok() != Some(pod) { notes.push("binary serde decoder does not read back what the encoder wrote"); } } }
+            (None, _) => err = Some("serde encoding in a binary format panicked".into()),
+        }
         if win != wincode::serialize(&n).unwrap() { err = Some("wincode encoding differs from the primitive's".into()); }
         if wincode::deserialize::<$P>(&win).ok() != Some(pod) { notes.push("wincode decoder does not read back what the encoder wrote"); }
         if pod_from_bytes::<$P>(&bytes).ok() != Some(&pod) { err = Some("byte cast of own bytes failed".into()); }
@@ -145,6 +151,7 @@ fn run_c13(t: &[&str], out: &mut RunOut, line: &str) {
             if w.0 != (read as u8) { err = Some("bool not written as 0/1".into()); }
             if bool::from(w) != read { err = Some("bool round trip".into()); }
             if json != serde_json::to_string(&read).unwrap() { err = Some("serde encoding differs from bool's".into()); }
+            if bincode::serialize(&p).ok() != bincode::serialize(&read).ok() { err = Some("serde encoding in a fixed-width binary format differs from bool's".into()); }
             let mut notes: Vec<&str> = vec![];
             if serde_json::from_str::<PodBool>(&json).ok() != Some(w) { notes.push("serde decoder does not read back what the encoder wrote"); }
             if win != wincode::serialize(&read).unwrap() { err = Some("wincode encoding differs from bool's".into()); }
